@@ -3,6 +3,7 @@ import Driver.Ante
 import Driver.Agg
 import Driver.Price
 import Driver.Rewards
+import Driver.Pconc
 open Driver
 
 def dispatch (fam : String) : Option (List String → String → Option Res) :=
@@ -14,6 +15,7 @@ def dispatch (fam : String) : Option (List String → String → Option Res) :=
   | "medianu" => some runMedianU
   | "mediani" => some runMedianI
   | "pcache" => some runPcache
+  | "pconc" => some runPconc
   | "calc" => some runCalc
   | "alloc" => some runAlloc
   | "divvy" => some runDivvy
